@@ -227,6 +227,9 @@ impl Sim {
 
     /// F15 exclusion: the first replication of a running server happens at tick >= 1, before any client connects.
     fn warm_up(&mut self) {
+        if self.cfg.no_exclusions {
+            return;
+        }
         for _ in 0..8 {
             if self.tick() >= 1 {
                 break;
@@ -570,10 +573,10 @@ impl Sim {
                     return;
                 }
                 let Some(e) = self.slots[slot] else { return };
-                if self.locked[slot] {
+                if self.locked[slot] && !self.cfg.no_exclusions {
                     return self.exclude("F20_locked_slot");
                 }
-                if self.has_stale_child(slot) {
+                if self.has_stale_child(slot) && !self.cfg.no_exclusions {
                     return self.exclude("F17_parent_despawn_with_stale_descendant");
                 }
                 self.unref(slot);
@@ -600,16 +603,16 @@ impl Sim {
                 if on == self.marked[slot] {
                     return;
                 }
-                if self.locked[slot] {
+                if self.locked[slot] && !self.cfg.no_exclusions {
                     return self.exclude("F20_locked_slot");
                 }
                 if on {
                     self.server.world_mut().entity_mut(e).insert(Replicated);
                 } else {
-                    if self.cfg.vis != 0 {
+                    if self.cfg.vis != 0 && !self.cfg.no_exclusions {
                         return self.exclude("F14_marker_off_under_visibility_list");
                     }
-                    if self.has_stale_child(slot) || (0..nslots).any(|s| self.parents[s] == Some(slot)) {
+                    if (self.has_stale_child(slot) || (0..nslots).any(|s| self.parents[s] == Some(slot))) && !self.cfg.no_exclusions {
                         return self.exclude("F17_parent_despawn_with_stale_descendant");
                     }
                     self.unref(slot);
@@ -630,7 +633,7 @@ impl Sim {
                 if k == K::P && !self.cfg.periodic {
                     return;
                 }
-                if self.cfg.periodic && (self.entity_has_p(slot) || k == K::P) {
+                if self.cfg.periodic && (self.entity_has_p(slot) || k == K::P) && !self.cfg.no_exclusions {
                     return self.exclude("F4_other_change_on_entity_with_periodic_component");
                 }
                 self.insert_k(e, k);
@@ -641,7 +644,7 @@ impl Sim {
                     return;
                 }
                 let Some(e) = self.slots[slot] else { return };
-                if self.cfg.periodic && self.entity_has_p(slot) {
+                if self.cfg.periodic && self.entity_has_p(slot) && !self.cfg.no_exclusions {
                     return self.exclude("F4_other_change_on_entity_with_periodic_component");
                 }
                 self.remove_k(e, k);
@@ -655,7 +658,7 @@ impl Sim {
                 if k == K::P && !self.cfg.periodic {
                     return;
                 }
-                if self.cfg.periodic && self.entity_has_p(slot) && k != K::P {
+                if self.cfg.periodic && self.entity_has_p(slot) && k != K::P && !self.cfg.no_exclusions {
                     return self.exclude("F4_other_change_on_entity_with_periodic_component");
                 }
                 if self.has_k(e, k) {
@@ -683,7 +686,7 @@ impl Sim {
                 if !self.marked[target] {
                     return;
                 }
-                if self.cfg.periodic && self.entity_has_p(slot) {
+                if self.cfg.periodic && self.entity_has_p(slot) && !self.cfg.no_exclusions {
                     return self.exclude("F4_other_change_on_entity_with_periodic_component");
                 }
                 self.server.world_mut().entity_mut(e).insert(R(t));
@@ -698,7 +701,7 @@ impl Sim {
                 if self.refs[slot].is_none() {
                     return;
                 }
-                if self.cfg.periodic && self.entity_has_p(slot) {
+                if self.cfg.periodic && self.entity_has_p(slot) && !self.cfg.no_exclusions {
                     return self.exclude("F4_other_change_on_entity_with_periodic_component");
                 }
                 self.server.world_mut().entity_mut(e).remove::<R>();
@@ -713,10 +716,10 @@ impl Sim {
                 if !self.marked[parent] {
                     return;
                 }
-                if self.parents[slot].is_some() {
+                if self.parents[slot].is_some() && !self.cfg.no_exclusions {
                     return self.exclude("F17b_direct_reparent");
                 }
-                if self.cfg.periodic && self.entity_has_p(slot) {
+                if self.cfg.periodic && self.entity_has_p(slot) && !self.cfg.no_exclusions {
                     return self.exclude("F4_other_change_on_entity_with_periodic_component");
                 }
                 self.server.world_mut().entity_mut(e).insert(ChildOf(p));
@@ -731,7 +734,7 @@ impl Sim {
                 if self.parents[slot].is_none() {
                     return;
                 }
-                if self.cfg.periodic && self.entity_has_p(slot) {
+                if self.cfg.periodic && self.entity_has_p(slot) && !self.cfg.no_exclusions {
                     return self.exclude("F4_other_change_on_entity_with_periodic_component");
                 }
                 self.server.world_mut().entity_mut(e).remove::<ChildOf>();
@@ -776,13 +779,17 @@ impl Sim {
                     return;
                 }
                 let Some(e) = self.slots[slot] else { return };
-                if self.locked[slot] {
+                if self.locked[slot] && !self.cfg.no_exclusions {
                     return self.exclude("F20_locked_slot");
                 }
                 let id = self.clients[client].id;
                 self.server.world_mut().get_mut::<ClientVisibility>(id).unwrap().set_visibility(e, visible);
                 if !visible {
-                    self.prespawned[client][slot] = None;
+                    // An adoption stops being current when the server hides an entity the client was shown;
+                    // while the mapping is still pending (locked slot, only reachable in the F20 replay) it stays current.
+                    if !self.locked[slot] {
+                        self.prespawned[client][slot] = None;
+                    }
                     self.break_refs(e, Some(client));
                 }
                 let in_list = if self.cfg.vis == 1 { !visible } else { visible };
@@ -1113,7 +1120,7 @@ impl Sim {
         }
         let before = self.tick();
         // F15 exclusion: under the manual policy the first frame of a running server increments the tick.
-        let tick = self.running && self.cfg.policy == 0 && (tick || before == 0);
+        let tick = self.running && self.cfg.policy == 0 && (tick || (before == 0 && !self.cfg.no_exclusions));
         if tick {
             self.server.world_mut().resource_mut::<ServerTick>().increment();
         }
